@@ -354,7 +354,7 @@ class Assume:
         if isinstance(coll, RegDict):
             k = S.const_value(env, item)
             if k is not None:
-                env.facts = env.facts | {('haskey' if isin else 'nokey', id(coll), k)}
+                env.facts = env.facts | {('haskey' if isin else 'nokey', coll.rid, k)}
             return [env]
         members = None
         if isinstance(coll, Str):
@@ -392,10 +392,10 @@ class Assume:
             members = list(coll.d)
         if members is None:
             if isin:
-                env.facts = env.facts | {(id(coll.v) if isinstance(coll, PyConst) else id(coll), id(item))}
+                env.facts = env.facts | {('member', id(coll.v) if isinstance(coll, PyConst) else repr(coll), skey(item))}
             return [env]
         if isin and not S.enum_values(env, item, 4096) and isinstance(coll, PyConst):
-            env.facts = env.facts | {(id(coll.v), id(item))}
+            env.facts = env.facts | {('member', id(coll.v), skey(item))}
         if isin:
             lens = sorted(set(len(m) for m in members))
             out = []
@@ -481,6 +481,9 @@ class Assume:
                     p = S.const_value(env, pv) if isinstance(pv, Str) else None
                     if p is None:
                         return [env]
+                    if not truth:
+                        # remember that this very string does not start/end with p (not a per-character fact)
+                        env.facts = env.facts | {('no' + name, obj.sid, p)}
                     if truth:
                         n = S.set_len(env, obj, len(p), None)
                         if n is None:
@@ -518,8 +521,15 @@ class Assume:
                 sv = self.eval(node.args[1], env)
                 pat = S.const_value(env, pv) if isinstance(pv, Str) else None
                 if pat is not None and isinstance(sv, Str):
-                    import re as _re
-                    flags = _re.I if (len(node.args) > 2 or node.keywords) else 0
+                    fl = None
+                    if len(node.args) > 2:
+                        fl = self.eval(node.args[2], env)
+                    for k in node.keywords:
+                        if k.arg == 'flags':
+                            fl = self.eval(k.value, env)
+                    flags = self.regex_flags(fl)
+                    if flags is None:
+                        return [env]
                     return self.match_refine(self.regex_lang(pat, flags), sv, truth, env)
         return None
 
@@ -569,7 +579,7 @@ class Assume:
             if bind is not None and truth:
                 env.vars[bind.id] = MatchV(lang, s, None, False)
             return [env]
-        if truth and ('nomatch', lang.pattern, id(s)) in env.facts:
+        if truth and ('nomatch', lang.pattern, skey(s)) in env.facts:
             return []
         t = self.match_truth(lang, s, env)
         if t is not None:
@@ -578,7 +588,7 @@ class Assume:
             if not truth:
                 return [env]
         if not truth:
-            env.facts = env.facts | {('nomatch', lang.pattern, id(s))}
+            env.facts = env.facts | {('nomatch', lang.pattern, skey(s))}
             # single class pattern on a single character: complement
             if len(lang.alts) == 1 and len(lang.alts[0].items) == 1 and s.fixed and len(s.pre) == 1:
                 S.refine_cell(env, s.pre[0], self.B.ALL - lang.alts[0].items[0].cls)
@@ -640,14 +650,31 @@ class Assume:
                 else:
                     S.refine_cell(env, c, midcls)
             return s2
-        s2 = S.ensure_pre(env, s2, npre)
-        s2 = S.ensure_suf(env, s2, len(sufitems))
+        # an open repeat right after the fixed prefix / right before the fixed suffix fixes that many more positions
+        lead = []
+        if npre < len(items) - nsuf and items[npre].lo >= 1:
+            lead = [items[npre].cls] * min(items[npre].lo, 8)
+        trail = []
+        if len(items) - nsuf - 1 >= npre and items[len(items) - nsuf - 1].lo >= 1 and (len(items) - nsuf - 1 > npre or not lead):
+            trail = [items[len(items) - nsuf - 1].cls] * min(items[len(items) - nsuf - 1].lo, 8)
+        s2 = S.ensure_pre(env, s2, npre + len(lead))
+        s2 = S.ensure_suf(env, s2, len(sufitems) + len(trail))
         anysuf = frozenset().union(*sufitems) if sufitems else frozenset()
         anypre = frozenset().union(*[it.cls for it in items[:npre]]) if npre else frozenset()
         for i, c in enumerate(s2.pre):
-            S.refine_cell(env, c, items[i].cls if i < npre else (midcls | anysuf), must=(i < npre))
+            if i < npre:
+                S.refine_cell(env, c, items[i].cls, must=True)
+            elif i - npre < len(lead):
+                S.refine_cell(env, c, lead[i - npre], must=True)
+            else:
+                S.refine_cell(env, c, midcls | anysuf, must=False)
         for j, c in enumerate(s2.suf):
-            S.refine_cell(env, c, sufitems[j] if j < len(sufitems) else (midcls | anypre), must=(j < len(sufitems)))
+            if j < len(sufitems):
+                S.refine_cell(env, c, sufitems[j], must=True)
+            elif j - len(sufitems) < len(trail):
+                S.refine_cell(env, c, trail[j - len(sufitems)], must=True)
+            else:
+                S.refine_cell(env, c, midcls | anypre, must=False)
         S.refine_cell(env, s2.body, midcls, must=False)
         S._check_feasible(env, s2)
         return s2
